@@ -18,7 +18,7 @@ for sid, r in sorted(res.items()):
             'how': 'tools/seed_confirm.sh in a scratch worktree: demo_test.go passes on the clean tree; with patch.diff applied the existing suite (go test ./pkg/... ./test/...) passes and demo_test.go fails',
             'result': r.get('confirmed', 'CONFIRMED'),
         },
-        'check_run': 'tools/seed_check.sh %s seeded/%s/patch.diff (git -C /repo apply; ./bin/vcheck run %s --tier quick; git -C /repo checkout -- .)' % (r.get('checked_by', sid.split('-')[0]), sid, r.get('checked_by', sid.split('-')[0])),
+        'check_run': ('tools/seed_check.sh %s seeded/%s/patch.diff (git -C /repo apply; ./bin/vcheck run %s --tier quick; git -C /repo checkout -- .)' % (r.get('checked_by', sid.split('-')[0]), sid, r.get('checked_by', sid.split('-')[0]))) if '-m' in sid else ('tools/seed_par.sh %s (patch applied to a scratch worktree of /repo, VERIF_REPO pointing at it; ./bin/vcheck run %s --tier quick; worktree removed)' % (sid, r.get('checked_by', sid.split('-')[0]))),
         'detected': r.get('detected'),
         'detected_by': r.get('detected_by', ''),
         'history': r.get('history', ''),
